@@ -1,3 +1,705 @@
-//! C08 — not built yet.
-use crate::run::Run;
-pub fn run(_run: &Run) { eprintln!("C08: check not built yet"); std::process::exit(2); }
+//! C08 — content-stream operators round-trip and mean what the operator table says.
+//!
+//! Part A: generated `Op` sequences (all variants the serializer accepts, boundary operands, shorthand triggers):
+//!         `parse_ops(serialize_ops(s))` must equal `s`. Failing sequences are taken apart at operation level
+//!         (operations failing on their own, then minimal failing sub-sequences of the rest) so that every
+//!         independent cause in one sequence is seen, and each is minimised before the signature is computed.
+//! Part B: every operator keyword of ISO 32000-1 Table A.1 printed by an own printer with well-formed operands;
+//!         singles are compared with a reference interpreter written from the specification
+//!         (`refimpl::c08_content`), ordered pairs are checked for non-interference
+//!         (parse(a·b) == parse(a) ++ parse(b), the current point for `v` excepted), chains of path operators
+//!         check the current point after `h` / `re`.
+use crate::opsgen::{self, features, is_strict_subsequence, minimise_ops, op_eq, ops_hash, repr_eq, show_ops, show_repr, to_repr, Repr, Val};
+use crate::panicmon::guard;
+use crate::par::par_chunks;
+use crate::refimpl::c08_content::{interpret, Interp, RObj};
+use crate::rng::{fnv, Rng};
+use crate::run::{show, Run};
+use crate::tape::Src;
+use pdf::content::{parse_ops, serialize_ops, Op};
+use pdf::object::NoResolve;
+use serde_json::{json, Value};
+use std::collections::{BTreeMap, HashSet};
+
+// ------------------------------------------------------------------------------------------------
+// library access
+// ------------------------------------------------------------------------------------------------
+
+/// parse with the library; Err = (outcome class, description)
+fn lib_parse(text: &[u8]) -> Result<Vec<Op>, (String, String)> {
+    match guard(|| parse_ops(text, &NoResolve)) {
+        Err(p) => Err((p.signature(), format!("parse_ops panicked: {}", p.describe()))),
+        Ok(Err(e)) => Err(("parse-error".into(), format!("parse_ops returned an error: {}", e))),
+        Ok(Ok(v)) => Ok(v),
+    }
+}
+fn lib_parse_reprs(text: &[u8]) -> Result<Vec<Repr>, (String, String)> { lib_parse(text).map(|v| v.iter().map(to_repr).collect()) }
+
+enum Rt {
+    Pass,
+    /// serializer returned Err: the sequence is outside the domain ("that the serializer accepts")
+    Rejected,
+    Fail { class: String, detail: String, text: Vec<u8>, parsed: Option<Vec<String>> },
+}
+
+fn roundtrip(ops: &[Op]) -> Rt {
+    let text = match guard(|| serialize_ops(ops)) {
+        Err(p) => return Rt::Fail { class: p.signature(), detail: format!("serialize_ops panicked: {}", p.describe()), text: vec![], parsed: None },
+        Ok(Err(_)) => return Rt::Rejected,
+        Ok(Ok(t)) => t,
+    };
+    match lib_parse(&text) {
+        Err((class, detail)) => Rt::Fail { class, detail, text, parsed: None },
+        Ok(back) => match opsgen::ops_equal(ops, &back) {
+            Ok(()) => Rt::Pass,
+            Err(diff) => {
+                let a: Vec<Repr> = ops.iter().map(to_repr).collect();
+                let b: Vec<Repr> = back.iter().map(to_repr).collect();
+                let class = if is_strict_subsequence(&b, &a) { "dropped-op" } else { "wrong-ops" };
+                Rt::Fail { class: class.into(), detail: diff, text, parsed: Some(show_ops(&back)) }
+            }
+        },
+    }
+}
+fn rt_fails(ops: &[Op]) -> bool { matches!(roundtrip(ops), Rt::Fail { .. }) }
+
+// ------------------------------------------------------------------------------------------------
+// Part A
+// ------------------------------------------------------------------------------------------------
+
+/// removal-only delta debugging over indices
+fn minimal_indices(ops: &[Op], fails: &dyn Fn(&[Op]) -> bool) -> Vec<usize> {
+    let mut idx: Vec<usize> = (0..ops.len()).collect();
+    let build = |idx: &[usize]| -> Vec<Op> { idx.iter().map(|i| ops[*i].clone()).collect() };
+    let mut k = (idx.len() / 2).max(1);
+    loop {
+        let mut i = 0;
+        while i + k <= idx.len() && idx.len() > 1 {
+            let mut cand = idx.clone();
+            cand.drain(i..i + k);
+            if !cand.is_empty() && fails(&build(&cand)) { idx = cand; } else { i += k; }
+        }
+        if k == 1 {
+            // one more pass at granularity 1 until stable
+            let mut again = false;
+            let mut i = 0;
+            while i < idx.len() && idx.len() > 1 {
+                let mut cand = idx.clone();
+                cand.remove(i);
+                if fails(&build(&cand)) { idx = cand; again = true; } else { i += 1; }
+            }
+            if !again { break; }
+        } else { k /= 2; }
+    }
+    idx
+}
+
+/// For a single failing operation whose remaining exotic value is the whole story — the same value in the plainest
+/// operation able to carry it fails as well — the kind is not part of the cause. Returns the carrier's outcome class.
+fn generic_value_cause(op: &Op) -> Option<String> {
+    use pdf::primitive::Primitive;
+    let r = to_repr(op);
+    let mut class: Option<String> = None;
+    for v in &r.f {
+        let leaves: Vec<Val> = match v { Val::List(l) => l.clone(), o => vec![o.clone()] };
+        for leaf in leaves {
+            let single = [Repr { kind: "x", f: vec![leaf.clone()] }];
+            if features(&single).is_empty() { continue; }
+            let carrier = match &leaf {
+                Val::Num(x) | Val::Prim(Primitive::Number(x)) => Op::LineWidth { width: *x },
+                Val::Name(s) => Op::GraphicsState { name: s.as_str().into() },
+                Val::Prim(Primitive::Name(s)) => Op::GraphicsState { name: s.as_str().into() },
+                Val::Str(b) => Op::TextDraw { text: opsgen::pdf_string(b) },
+                Val::Prim(Primitive::String(s)) => Op::TextDraw { text: s.clone() },
+                Val::Prim(p) => Op::BeginMarkedContent { tag: "A".into(), properties: Some(p.clone()) },
+                _ => return None,
+            };
+            match roundtrip(&[carrier]) { Rt::Fail { class: c, .. } => { if class.is_none() { class = Some(c); } } _ => return None }
+        }
+    }
+    class
+}
+
+fn report_a(run: &Run, minimal: &[Op], original_len: usize) {
+    let Rt::Fail { class, detail, text, parsed } = roundtrip(minimal) else { run.inconclusive("C08/A: minimised case no longer fails".into()); return };
+    let generic = if minimal.len() == 1 { generic_value_cause(&minimal[0]) } else { None };
+    let sig = match &generic {
+        Some(c) => format!("C08|A|{}|{}", opsgen::label_set(minimal, false), c),
+        None => format!("C08|A|{}|{}", opsgen::label_set(minimal, true), class),
+    };
+    run.count("A:failing_minimal_cases");
+    if run.has_violation(&sig) { run.violation(&sig, "", Value::Null); return; }
+    run.violation(&sig, &format!("parse_ops(serialize_ops(ops)) != ops: {}", detail), json!({
+        "part": "A", "ops": show_ops(minimal), "serialized": show(&text), "parsed_back": parsed, "difference": detail,
+        "outcome_class_of_this_case": class, "original_sequence_len": original_len,
+    }));
+}
+
+fn check_sequence(run: &Run, ops: &[Op], local: &mut BTreeMap<String, u64>) {
+    match roundtrip(ops) {
+        Rt::Pass => { *local.entry("A:sequences_pass".into()).or_insert(0) += 1; return; }
+        Rt::Rejected => { *local.entry("A:sequences_rejected_by_serializer".into()).or_insert(0) += 1; return; }
+        Rt::Fail { text, .. } => { count_shorthands(&text, local); }
+    }
+    *local.entry("A:sequences_fail".into()).or_insert(0) += 1;
+    // 1. operations that fail on their own
+    let mut rest: Vec<Op> = Vec::new();
+    let mut seen_single: HashSet<String> = HashSet::new();
+    for op in ops {
+        if rt_fails(std::slice::from_ref(op)) {
+            let pre = format!("{}|{:?}", opsgen::op_kind(op), features(&[to_repr(op)]));
+            if seen_single.insert(pre) {
+                let m = minimise_ops(std::slice::from_ref(op), rt_fails, 400);
+                report_a(run, &m, ops.len());
+            }
+        } else { rest.push(op.clone()); }
+    }
+    // 2. interactions among the rest (every operation of `rest` round-trips on its own)
+    *local.entry("A:remainders_tested".into()).or_insert(0) += 1;
+    *local.entry("A:remainder_ops".into()).or_insert(0) += rest.len() as u64;
+    if !rt_fails(&rest) { *local.entry("A:remainders_pass".into()).or_insert(0) += 1; }
+    for _ in 0..8 {
+        if rest.is_empty() || !rt_fails(&rest) { break; }
+        let idx = minimal_indices(&rest, &rt_fails);
+        let sub: Vec<Op> = idx.iter().map(|i| rest[*i].clone()).collect();
+        let m = minimise_ops(&sub, rt_fails, 1500);
+        report_a(run, &m, ops.len());
+        let drop: HashSet<usize> = idx.into_iter().collect();
+        rest = rest.into_iter().enumerate().filter(|(i, _)| !drop.contains(i)).map(|(_, o)| o).collect();
+    }
+}
+
+const SHORTHANDS: [&str; 8] = ["s", "b", "b*", "'", "\"", "TD", "v", "y"];
+fn count_shorthands(text: &[u8], local: &mut BTreeMap<String, u64>) {
+    for line in text.split(|b| *b == b'\n') {
+        let tok = line.rsplit(|b| *b == b' ').next().unwrap_or(b"");
+        if let Ok(t) = std::str::from_utf8(tok) {
+            if SHORTHANDS.contains(&t) { *local.entry(format!("A:written:{}", t)).or_insert(0) += 1; }
+        }
+    }
+}
+
+fn part_a(run: &Run) {
+    let n = run.n(30_000, 3_000_000);
+    par_chunks(n, 500, |lo, hi| {
+        let mut local: BTreeMap<String, u64> = BTreeMap::new();
+        for i in lo..hi {
+            let mut src = Src::fresh(Rng::derive(run.seed, 8, i));
+            let ops = opsgen::gen_ops(&mut src, 40);
+            run.eval();
+            if !ops.is_empty() { run.nontrivial(ops_hash(&ops)); }
+            for o in &ops { *local.entry(format!("A:kind:{}", opsgen::op_kind(o))).or_insert(0) += 1; }
+            for l in &src.labels { if l.starts_with("pat:") || l.starts_with("c1=") || l.starts_with("c2=") { *local.entry(format!("A:{}", l)).or_insert(0) += 1; } }
+            if let Rt::Pass = roundtrip(&ops) {
+                // count shorthands of passing sequences too
+                if let Ok(Ok(t)) = guard(|| serialize_ops(&ops)) { count_shorthands(&t, &mut local); }
+                *local.entry("A:sequences_pass".into()).or_insert(0) += 1;
+            } else {
+                check_sequence(run, &ops, &mut local);
+            }
+            if i < 3 {
+                let text = guard(|| serialize_ops(&ops)).ok().and_then(|r| r.ok()).unwrap_or_default();
+                run.sample(json!({"part": "A", "ops": show_ops(&ops[..ops.len().min(6)]), "n_ops": ops.len(), "serialized": show(&text[..text.len().min(160)])}));
+            }
+        }
+        for (k, v) in local { run.add(&k, v); }
+    });
+}
+
+// ------------------------------------------------------------------------------------------------
+// Part B: own printer
+// ------------------------------------------------------------------------------------------------
+
+/// the 73 operator keywords of Table A.1; BI, ID and EI form one unit (an inline image)
+const UNITS: [&str; 71] = [
+    "b", "B", "b*", "B*", "BDC", "BI", "BMC", "BT", "BX", "c", "cm", "CS", "cs", "d", "d0", "d1", "Do", "DP", "EMC", "ET", "EX",
+    "f", "F", "f*", "G", "g", "gs", "h", "i", "j", "J", "K", "k", "l", "m", "M", "MP", "n", "q", "Q", "re", "RG", "rg", "ri", "s", "S",
+    "SC", "sc", "SCN", "scn", "sh", "T*", "Tc", "Td", "TD", "Tf", "Tj", "TJ", "TL", "Tm", "Tr", "Ts", "Tw", "Tz", "v", "w", "W", "W*", "y", "'", "\"",
+];
+
+struct BGen<'a> {
+    src: &'a mut Src,
+    used: HashSet<i64>,
+    ctr: u32,
+    /// labelled edge choices taken (they become part of the operator key of a signature)
+    edge: Vec<&'static str>,
+    /// no edge choices at all (pairs and chains test interference, not the edges of single operators)
+    plain: bool,
+}
+
+impl<'a> BGen<'a> {
+    fn new(src: &'a mut Src, plain: bool) -> Self { BGen { src, used: HashSet::new(), ctr: 0, edge: Vec::new(), plain } }
+    /// a number not used before in this text: (spelling, value)
+    fn num(&mut self) -> (String, RObj) {
+        let mut k: i64 = match self.src.draw(4) {
+            0 | 1 => self.src.range(0, 999) * 1000,
+            2 => self.src.range(0, 9999) * 100,
+            _ => self.src.range(1, 99999) * [1i64, 5, 25, 125][self.src.draw(4) as usize] % 1_000_000,
+        };
+        if self.src.draw(3) == 2 { k = -k; }
+        while !self.used.insert(k) { k += 1000; }
+        let a = k.abs();
+        let mut s = String::new();
+        if k < 0 { s.push('-'); }
+        s.push_str(&format!("{}", a / 1000));
+        if a % 1000 != 0 {
+            let frac = format!("{:03}", a % 1000);
+            s.push('.');
+            s.push_str(frac.trim_end_matches('0'));
+            let v: f32 = s.parse().unwrap();
+            (s, RObj::Real(v))
+        } else { (s, RObj::Int(k / 1000)) }
+    }
+    fn int(&mut self, lo: i64, hi: i64) -> (String, RObj) { let v = self.src.range(lo, hi); (format!("{}", v), RObj::Int(v)) }
+    fn name(&mut self) -> (String, RObj) {
+        self.ctr += 1;
+        let p = *self.src.pick(&["F", "Im", "GS", "Sh", "P", "Cs", "Tag", "X.y", "a-b_c"]);
+        let v = format!("{}{}", p, self.ctr);
+        (format!("/{}", v), RObj::Name(v))
+    }
+    fn string(&mut self) -> (Vec<u8>, RObj) {
+        self.ctr += 1;
+        let base = format!("s{}", self.ctr).into_bytes();
+        match self.src.draw(4) {
+            0 => { let mut v = base.clone(); v.extend_from_slice(b" Hello"); let mut t = vec![b'(']; t.extend_from_slice(&v); t.push(b')'); (t, RObj::Str(v)) }
+            1 => {
+                // escapes: \( \) \\ octal, nested balanced parentheses
+                let mut v = base.clone(); let mut t = vec![b'(']; t.extend_from_slice(&base);
+                t.extend_from_slice(b"\\(");  v.push(b'(');
+                t.extend_from_slice(b"(in)"); v.extend_from_slice(b"(in)");
+                t.extend_from_slice(b"\\\\"); v.push(b'\\');
+                t.extend_from_slice(b"\\053"); v.push(b'+');
+                t.extend_from_slice(b"\\)");  v.push(b')');
+                t.push(b')');
+                (t, RObj::Str(v))
+            }
+            2 => {
+                let mut v = base.clone(); v.push(0xe9); v.push(0x00); v.push(0xff);
+                let mut t = vec![b'<']; for b in &v { t.extend_from_slice(format!("{:02X}", b).as_bytes()); } t.push(b'>');
+                (t, RObj::Str(v))
+            }
+            _ => { let mut t = vec![b'(']; t.extend_from_slice(&base); t.push(b')'); (t, RObj::Str(base)) }
+        }
+    }
+    fn props(&mut self) -> (Vec<u8>, RObj) {
+        match self.src.draw(3) {
+            0 => { let (t, v) = self.name(); (t.into_bytes(), v) }
+            1 => { let (t, v) = self.int(0, 500); (format!("<</MCID {}>>", t).into_bytes(), RObj::Dict(vec![("MCID".into(), v)])) }
+            _ => {
+                let (t1, v1) = self.num(); let (t2, v2) = self.num(); let (ts, vs) = self.string(); let (tn, vn) = self.name();
+                let mut t = format!("<< /Type {} /K [{} {}] /S ", tn, t1, t2).into_bytes();
+                t.extend_from_slice(&ts); t.extend_from_slice(b" /V true >>");
+                (t, RObj::Dict(vec![("Type".into(), vn), ("K".into(), RObj::Arr(vec![v1, v2])), ("S".into(), vs), ("V".into(), RObj::Bool(true))]))
+            }
+        }
+    }
+}
+
+struct Unit {
+    text: Vec<u8>,
+    /// (operator, operands) the printer meant
+    intent: Vec<(String, Vec<RObj>)>,
+    /// intended picture of an inline image
+    image: Option<Repr>,
+    /// operator key for signatures: keyword plus labelled edge choices
+    key: String,
+}
+
+fn join_args(parts: &[Vec<u8>], op: &str) -> Vec<u8> {
+    let mut t = Vec::new();
+    for p in parts { t.extend_from_slice(p); t.push(b' '); }
+    t.extend_from_slice(op.as_bytes());
+    t
+}
+
+fn emit(g: &mut BGen, op: &str) -> Unit {
+    g.edge.clear();
+    let mut parts: Vec<Vec<u8>> = Vec::new();
+    let mut vals: Vec<RObj> = Vec::new();
+    let mut image = None;
+    macro_rules! nums { ($n:expr) => { for _ in 0..$n { let (t, v) = g.num(); parts.push(t.into_bytes()); vals.push(v); } } }
+    macro_rules! name { () => { { let (t, v) = g.name(); parts.push(t.into_bytes()); vals.push(v); } } }
+    macro_rules! string { () => { { let (t, v) = g.string(); parts.push(t); vals.push(v); } } }
+    match op {
+        "b" | "B" | "b*" | "B*" | "BT" | "BX" | "EMC" | "ET" | "EX" | "f" | "F" | "f*" | "h" | "n" | "q" | "Q" | "s" | "S" | "T*" | "W" | "W*" => {}
+        "BDC" | "DP" => { name!(); let (t, v) = g.props(); parts.push(t); vals.push(v); }
+        "BMC" | "MP" | "CS" | "cs" | "Do" | "gs" | "sh" => name!(),
+        "c" | "cm" | "d1" | "Tm" => nums!(6),
+        "K" | "k" | "re" | "v" | "y" => nums!(4),
+        "RG" | "rg" => nums!(3),
+        "d0" | "l" | "m" | "Td" | "TD" => nums!(2),
+        "G" | "g" | "i" | "M" | "Tc" | "TL" | "Ts" | "Tw" | "Tz" | "w" => nums!(1),
+        "d" => {
+            let k = g.src.draw(4);
+            let mut t = vec![b'[']; let mut a = Vec::new();
+            for i in 0..k { let (s, v) = g.num(); if i > 0 { t.push(b' '); } t.extend_from_slice(s.as_bytes()); a.push(v); }
+            t.push(b']');
+            parts.push(t); vals.push(RObj::Arr(a));
+            nums!(1);
+        }
+        "j" | "J" => { let (t, v) = g.int(0, 2); parts.push(t.into_bytes()); vals.push(v); }
+        "Tr" => {
+            let (t, v) = if g.src.draw(4) == 3 && !g.plain { g.edge.push("mode>=6"); g.int(6, 7) } else { g.int(0, 5) };
+            parts.push(t.into_bytes()); vals.push(v);
+        }
+        "ri" => { let s = *g.src.pick(&["RelativeColorimetric", "AbsoluteColorimetric", "Perceptual", "Saturation"]); parts.push(format!("/{}", s).into_bytes()); vals.push(RObj::Name(s.into())); }
+        "SC" | "sc" => { let k = *g.src.pick(&[1, 3, 4]); nums!(k); }
+        "SCN" | "scn" => { let k = g.src.draw(5); nums!(k); if k == 0 || g.src.draw(2) == 1 { name!(); } }
+        "Tf" => { name!(); nums!(1); }
+        "Tj" | "'" => string!(),
+        "\"" => { nums!(2); string!(); }
+        "TJ" => {
+            let k = g.src.draw(5);
+            let mut t = vec![b'[']; let mut a = Vec::new();
+            let mut prev_str = false;
+            for i in 0..k {
+                let is_str = g.src.draw(2) == 0;
+                // strings delimit themselves; two numbers need white space between them
+                if i > 0 && (!(prev_str || is_str) || g.src.draw(2) == 0) { t.push(b' '); }
+                if is_str { let (s, v) = g.string(); t.extend_from_slice(&s); a.push(v); }
+                else { let (s, v) = g.num(); t.extend_from_slice(s.as_bytes()); a.push(v); }
+                prev_str = is_str;
+            }
+            t.push(b']');
+            parts.push(t); vals.push(RObj::Arr(a));
+        }
+        "BI" => {
+            let (text, img) = emit_image(g);
+            image = Some(img);
+            let key = std::iter::once("BI").chain(g.edge.iter().copied()).collect::<Vec<_>>().join("+");
+            return Unit { text, intent: vec![("BI".into(), vec![])], image, key };
+        }
+        other => panic!("C08: no printer for operator {}", other),
+    }
+    let key = std::iter::once(op).chain(g.edge.iter().copied()).collect::<Vec<_>>().join("+");
+    Unit { text: join_args(&parts, op), intent: vec![(op.to_string(), vals)], image, key }
+}
+
+fn emit_image(g: &mut BGen) -> (Vec<u8>, Repr) {
+    let w = g.src.range(1, 4); let h = g.src.range(1, 3);
+    let abbr = g.src.draw(2) == 0;
+    let k = |a: &'static str, f: &'static str| if abbr { a } else { f };
+    let mask = g.src.draw(5) == 4;
+    let interp = g.src.draw(4) == 3;
+    let mut t = format!("BI /{} {} /{} {}", k("W", "Width"), w, k("H", "Height"), h);
+    let (comps, bits, cs_name, bpc): (i64, i64, Option<&str>, Option<i64>) = if mask {
+        t.push_str(&format!(" /{} true", k("IM", "ImageMask")));
+        (1, 1, None, None)
+    } else {
+        let (cs_a, cs_f, comps) = *g.src.pick(&[("G", "DeviceGray", 1i64), ("RGB", "DeviceRGB", 3), ("CMYK", "DeviceCMYK", 4)]);
+        let bits = *g.src.pick(&[8i64, 8, 4, 1]);
+        t.push_str(&format!(" /{} /{} /{} {}", k("CS", "ColorSpace"), if abbr { cs_a } else { cs_f }, k("BPC", "BitsPerComponent"), bits));
+        (comps, bits, Some(cs_f), Some(bits))
+    };
+    if interp { t.push_str(&format!(" /{} true", k("I", "Interpolate"))); }
+    let len = (((w * comps * bits) + 7) / 8 * h) as usize;
+    let mut data: Vec<u8> = (0..len).map(|_| g.src.byte()).collect();
+    for b in data.iter_mut() { if *b == b'E' { *b = b'F'; } }
+    let hex = g.src.draw(4) == 3 && !g.plain;
+    let mut text;
+    if hex {
+        g.edge.push("AHx");
+        t.push_str(&format!(" /{} /{}", k("F", "Filter"), k("AHx", "ASCIIHexDecode")));
+        text = t.into_bytes();
+        text.extend_from_slice(b" ID ");
+        for b in &data { text.extend_from_slice(format!("{:02x}", b).as_bytes()); }
+        text.push(b'>');
+    } else {
+        if g.src.draw(8) == 7 && !g.plain { *data.last_mut().unwrap() = b'\n'; }
+        if g.plain && *data.last().unwrap() == b'\n' { *data.last_mut().unwrap() = b'n'; }
+        if *data.last().unwrap() == b'\n' { g.edge.push("data-ends-lf"); }
+        text = t.into_bytes();
+        text.extend_from_slice(if g.src.draw(2) == 0 { b" ID " } else { b"\nID\n" });
+        text.extend_from_slice(&data);
+    }
+    text.extend_from_slice(b"\nEI");
+    let img = Repr { kind: "InlineImage", f: vec![
+        Val::Num(w as f32), Val::Num(h as f32),
+        match bpc { Some(b) => Val::Num(b as f32), None => Val::Absent },
+        match cs_name { Some(c) => Val::Name(c.to_string()), None => Val::Absent },
+        Val::Tag(if mask { "mask" } else { "nomask" }),
+        Val::Tag(if interp { "interpolate" } else { "nointerpolate" }),
+        Val::Str(data),
+    ] };
+    (text, img)
+}
+
+/// reference reading of a generated text; None (and an inconclusive record) when reference and printer disagree
+fn reference(run: &Run, text: &[u8], intent: &[(String, Vec<RObj>)], images: &[&Repr]) -> Option<Interp> {
+    let it = match interpret(text) {
+        Ok(i) => i,
+        Err(e) => { run.inconclusive(format!("C08/B: reference interpreter rejects generated text {:?}: {}", show(text), e)); return None; }
+    };
+    if it.trace.len() != intent.len() || it.trace.iter().zip(intent).any(|(a, b)| a.0 != b.0 || a.1 != b.1) {
+        run.inconclusive(format!("C08/B: reference tokenisation differs from the printer's intent for {:?}: {:?} vs {:?}", show(text), it.trace, intent));
+        return None;
+    }
+    let got: Vec<&Repr> = it.ops.iter().filter(|r| r.kind == "InlineImage").collect();
+    if got.len() != images.len() || got.iter().zip(images).any(|(a, b)| !repr_eq(a, b)) {
+        run.inconclusive(format!("C08/B: reference reads a different inline image than printed in {:?}", show(text)));
+        return None;
+    }
+    Some(it)
+}
+
+/// expected (reference) picture with the "current point undefined" wildcard of `v` filled from the actual value
+fn fill_wildcards(exp: &[Repr], act: &[Repr]) -> Vec<Repr> {
+    let mut out = exp.to_vec();
+    for (i, r) in out.iter_mut().enumerate() {
+        if r.kind == "CurveTo" && matches!(r.f.get(0), Some(Val::Absent)) {
+            if let Some(a) = act.get(i) { if a.kind == "CurveTo" { r.f[0] = a.f[0].clone(); r.f[1] = a.f[1].clone(); continue; } }
+            r.f[0] = Val::Num(0.0); r.f[1] = Val::Num(0.0);
+        }
+    }
+    out
+}
+
+/// compare library result with the reference; Err = (index of first difference, class, description)
+fn compare_b(exp: &[Repr], act: &[Repr]) -> Result<(), (usize, &'static str, String)> {
+    let exp = fill_wildcards(exp, act);
+    match opsgen::reprs_equal(&exp, act) {
+        Ok(()) => Ok(()),
+        Err(d) => {
+            let first = (0..exp.len().min(act.len())).find(|i| !repr_eq(&exp[*i], &act[*i])).unwrap_or(exp.len().min(act.len()));
+            let class = if is_strict_subsequence(act, &exp) { "dropped-op" } else { "wrong-ops" };
+            Err((first, class, d))
+        }
+    }
+}
+/// do two CurveTo pictures differ in the first control point only?
+fn only_c1_differs(a: &Repr, b: &Repr) -> bool {
+    a.kind == "CurveTo" && b.kind == "CurveTo" && a.f.len() == 6 && b.f.len() == 6
+        && (2..6).all(|i| opsgen::val_eq(&a.f[i], &b.f[i])) && !(0..2).all(|i| opsgen::val_eq(&a.f[i], &b.f[i]))
+}
+fn shown(v: &[Repr]) -> Vec<String> { v.iter().map(show_repr).collect() }
+
+fn single(run: &Run, op: &str, src: &mut Src, sample: bool) {
+    let mut g = BGen::new(src, false);
+    let u = emit(&mut g, op);
+    let mut text = u.text.clone();
+    text.push(b'\n');
+    run.eval();
+    run.nontrivial(fnv(&text));
+    let Some(it) = reference(run, &text, &u.intent, &u.image.iter().collect::<Vec<_>>()) else { return };
+    if sample { run.sample_cap(9, || json!({"part": "B", "text": show(&text), "expected": shown(&it.ops)})); }
+    let wit = |act: Option<&[Repr]>, d: &str| json!({"part": "B", "text": show(&text), "expected": shown(&it.ops), "parsed": act.map(shown), "difference": d});
+    match lib_parse_reprs(&text) {
+        Err((class, d)) => run.violation(&format!("C08|B|{}|{}", u.key, class), &format!("operator {}: {}", op, d), wit(None, &d)),
+        Ok(act) => if let Err((_, class, d)) = compare_b(&it.ops, &act) {
+            run.violation(&format!("C08|B|{}|{}", u.key, class), &format!("operator {} does not parse to what the operator table defines: {}", op, d), wit(Some(&act), &d));
+        }
+    }
+}
+
+fn pair(run: &Run, a: &str, b: &str, src: &mut Src) {
+    let mut g = BGen::new(src, true);
+    let ua = emit(&mut g, a);
+    let ub = emit(&mut g, b);
+    let sep: &[u8] = if g.src.draw(3) == 2 { b" " } else { b"\n" };
+    let mut ta = ua.text.clone(); ta.push(b'\n');
+    let mut tb = ub.text.clone(); tb.push(b'\n');
+    let mut tp = ua.text.clone(); tp.extend_from_slice(sep); tp.extend_from_slice(&ub.text); tp.push(b'\n');
+    run.eval();
+    run.nontrivial(fnv(&tp));
+    let mut intent = ua.intent.clone(); intent.extend(ub.intent.iter().cloned());
+    let images: Vec<&Repr> = ua.image.iter().chain(ub.image.iter()).collect();
+    let Some(ep) = reference(run, &tp, &intent, &images) else { return };
+    let Some(eb) = reference(run, &tb, &ub.intent, &ub.image.iter().collect::<Vec<_>>()) else { return };
+    let (la, lb) = match (lib_parse_reprs(&ta), lib_parse_reprs(&tb)) { (Ok(x), Ok(y)) => (x, y), _ => { run.count("B:pair_skipped_single_fails_to_parse"); return; } };
+    let wit = |act: Option<&[Repr]>, hom: Option<&[Repr]>, d: &str| json!({"part": "B", "text": show(&tp), "first_alone": show(&ta), "second_alone": show(&tb),
+        "expected": shown(&ep.ops), "parsed_pair": act.map(shown), "parsed_first_alone_then_second_alone": hom.map(shown), "difference": d});
+    let lp = match lib_parse_reprs(&tp) {
+        Ok(v) => v,
+        Err((class, d)) => { run.violation(&format!("C08|B|{} {}|{}", ua.key, ub.key, class), &format!("operators {} then {}: {}", a, b, d), wit(None, None, &d)); return; }
+    };
+    // what the pair must read as if the two operators do not interfere: parse(a) ++ parse(b); the only legitimate
+    // dependence is the first control point of `v`, which is the current point left by the first operator
+    let mut lb_ctx = lb.clone();
+    let mut ctx_note = String::new();
+    if b == "v" && lb_ctx.len() == 1 && eb.ops.len() == 1 && lb_ctx[0].kind == "CurveTo" {
+        if let Some(last) = ep.ops.last() {
+            if last.kind == "CurveTo" {
+                match (&last.f[0], &last.f[1]) {
+                    (Val::Num(_), Val::Num(_)) => { lb_ctx[0].f[0] = last.f[0].clone(); lb_ctx[0].f[1] = last.f[1].clone(); ctx_note = ep.origin.last().map(|o| o.cp_from.clone()).unwrap_or_default(); }
+                    _ => if let Some(l) = lp.last() { if l.kind == "CurveTo" { lb_ctx[0].f[0] = l.f[0].clone(); lb_ctx[0].f[1] = l.f[1].clone(); } }
+                }
+            }
+        }
+    }
+    let hom: Vec<Repr> = la.iter().cloned().chain(lb_ctx.iter().cloned()).collect();
+    if opsgen::reprs_equal(&hom, &lp).is_ok() { return; }
+    let d = opsgen::reprs_equal(&hom, &lp).unwrap_err();
+    if lp.len() == hom.len() && !ctx_note.is_empty() && (0..hom.len() - 1).all(|i| repr_eq(&hom[i], &lp[i])) && only_c1_differs(&hom[hom.len() - 1], &lp[lp.len() - 1]) {
+        run.violation(&format!("C08|B|v@{}|wrong-ops", ctx_note),
+            &format!("v after {}: first control point is not the current point the specification defines: {}", ctx_note, d), wit(Some(&lp), Some(&hom), &d));
+        return;
+    }
+    let a_part_same = lp.len() >= la.len() && (0..la.len()).all(|i| repr_eq(&la[i], &lp[i]));
+    if a_part_same {
+        run.violation(&format!("C08|B|{}|leaked-operand", ua.key),
+            &format!("operator {} changes how the following operator ({}) is read: {}", a, b, d), wit(Some(&lp), Some(&hom), &d));
+    } else {
+        run.violation(&format!("C08|B|{} {}|wrong-ops", ua.key, ub.key),
+            &format!("operators {} then {} read differently together than apart: {}", a, b, d), wit(Some(&lp), Some(&hom), &d));
+    }
+}
+
+/// chains of path operators (current point per 8.5.2: moved by m l c v y, by re to its origin, by h to the start
+/// of the subpath, undefined after painting) and a compatibility section
+const CHAINS: [&[&str]; 14] = [
+    &["m", "v"], &["m", "l", "v"], &["m", "c", "v"], &["m", "y", "v"], &["m", "v", "v"], &["re", "v"], &["m", "l", "h", "v"],
+    &["re", "l", "h", "v"], &["m", "l", "S", "m", "v"], &["m", "w", "v"], &["m", "l", "h", "l", "v"], &["re", "re", "v"],
+    &["m", "l", "h", "y", "v"], &["m", "q", "l", "Q", "v"],
+];
+
+fn chain(run: &Run, ops: &[&str], src: &mut Src) {
+    let mut g = BGen::new(src, true);
+    let mut text = Vec::new();
+    let mut intent = Vec::new();
+    for o in ops { let u = emit(&mut g, o); text.extend_from_slice(&u.text); text.push(b'\n'); intent.extend(u.intent); }
+    run.eval();
+    run.nontrivial(fnv(&text));
+    let Some(it) = reference(run, &text, &intent, &[]) else { return };
+    let key = ops.join(" ");
+    let wit = |act: Option<&[Repr]>, d: &str| json!({"part": "B", "chain": key, "text": show(&text), "expected": shown(&it.ops), "parsed": act.map(shown), "difference": d});
+    match lib_parse_reprs(&text) {
+        Err((class, d)) => run.violation(&format!("C08|B|{}|{}", key, class), &d, wit(None, &d)),
+        Ok(act) => if let Err((i, class, d)) = compare_b(&it.ops, &act) {
+            let exp = fill_wildcards(&it.ops, &act);
+            let org = it.origin.get(i);
+            if let (Some(o), Some(e), Some(a)) = (org, exp.get(i), act.get(i)) {
+                if o.operator == "v" && only_c1_differs(e, a) {
+                    run.violation(&format!("C08|B|v@{}|wrong-ops", o.cp_from),
+                        &format!("v after {}: first control point is not the current point the specification defines: {}", o.cp_from, d), wit(Some(&act), &d));
+                    return;
+                }
+            }
+            let opname = org.map(|o| o.operator.clone()).unwrap_or_else(|| key.clone());
+            run.violation(&format!("C08|B|{}|{}", opname, class), &format!("chain {}: {}", key, d), wit(Some(&act), &d));
+        }
+    }
+}
+
+/// unknown operators inside BX … EX are ignored together with their operands (Table 32 / 7.8.2)
+fn compat_section(run: &Run, src: &mut Src) {
+    let mut g = BGen::new(src, true);
+    let (n1, _) = g.num(); let (n2, _) = g.num(); let (nm, _) = g.name();
+    let (w, wv) = g.num();
+    let text = format!("BX\n{} {} {} xyzzy\nEX\n{} w\n", n1, nm, n2, w).into_bytes();
+    run.eval();
+    run.nontrivial(fnv(&text));
+    let it = match interpret(&text) { Ok(i) => i, Err(e) => { run.inconclusive(format!("C08/B: reference rejects compat text: {}", e)); return; } };
+    let _ = wv;
+    match lib_parse_reprs(&text) {
+        Err((class, d)) => run.violation(&format!("C08|B|BX unknown EX|{}", class), &d, json!({"text": show(&text)})),
+        Ok(act) => if let Err((_, _, d)) = compare_b(&it.ops, &act) {
+            run.violation("C08|B|BX|leaked-operand", &format!("unknown operator inside BX/EX is not skipped cleanly: {}", d),
+                json!({"part": "B", "text": show(&text), "expected": shown(&it.ops), "parsed": shown(&act)}));
+        }
+    }
+}
+
+fn part_b(run: &Run) {
+    let n_single = run.n(60, 2000);
+    let n_pair = run.n(3, 60);
+    let n_chain = run.n(200, 5000);
+    let nu = UNITS.len() as u64;
+    par_chunks(nu * n_single, 64, |lo, hi| for j in lo..hi {
+        let (u, k) = ((j / n_single) as usize, j % n_single);
+        let mut src = Src::fresh(Rng::derive(run.seed, 0x0801, (u as u64) << 32 | k));
+        single(run, UNITS[u], &mut src, k == 0 && u % 9 == 4);
+    });
+    for u in UNITS { run.add(&format!("B:single:{}", u), n_single); }
+    par_chunks(nu * nu * n_pair, 64, |lo, hi| for j in lo..hi {
+        let (p, k) = (j / n_pair, j % n_pair);
+        let (a, b) = ((p / nu) as usize, (p % nu) as usize);
+        let mut src = Src::fresh(Rng::derive(run.seed, 0x0802, p << 16 | k));
+        pair(run, UNITS[a], UNITS[b], &mut src);
+    });
+    run.add("B:ordered_pairs", nu * nu);
+    run.add("B:pair_texts", nu * nu * n_pair);
+    par_chunks(CHAINS.len() as u64 * n_chain, 64, |lo, hi| for j in lo..hi {
+        let (c, k) = ((j / n_chain) as usize, j % n_chain);
+        let mut src = Src::fresh(Rng::derive(run.seed, 0x0803, (c as u64) << 32 | k));
+        chain(run, CHAINS[c], &mut src);
+    });
+    run.add("B:chain_texts", CHAINS.len() as u64 * n_chain);
+    for k in 0..run.n(50, 500) {
+        let mut src = Src::fresh(Rng::derive(run.seed, 0x0804, k));
+        compat_section(run, &mut src);
+    }
+    run.exhaustive("operator keywords of ISO 32000-1 Table A.1 (73; BI/ID/EI as one unit), singly", true);
+    run.exhaustive("ordered pairs of operator units (71 x 71)", true);
+}
+
+// ------------------------------------------------------------------------------------------------
+// self test of the monitor (never a verdict about the library)
+// ------------------------------------------------------------------------------------------------
+
+fn self_test(run: &Run) {
+    let mut bad: Vec<String> = Vec::new();
+    // reference interpreter against hand-verified readings
+    let table: [(&str, &[&str]); 16] = [
+        ("1 2 m 3 4 l h S", &["MoveTo{1.0, 2.0}", "LineTo{3.0, 4.0}", "Close{}", "Stroke{}"]),
+        ("1 2 m 3 4 5 6 v", &["MoveTo{1.0, 2.0}", "CurveTo{1.0, 2.0, 3.0, 4.0, 5.0, 6.0}"]),
+        ("1 2 3 4 y", &["CurveTo{1.0, 2.0, 3.0, 4.0, 3.0, 4.0}"]),
+        ("1 2 m 3 4 l h 5 6 7 8 v", &["MoveTo{1.0, 2.0}", "LineTo{3.0, 4.0}", "Close{}", "CurveTo{1.0, 2.0, 5.0, 6.0, 7.0, 8.0}"]),
+        ("9 8 7 6 re 1 2 3 4 v", &["Rect{9.0, 8.0, 7.0, 6.0}", "CurveTo{9.0, 8.0, 1.0, 2.0, 3.0, 4.0}"]),
+        ("3 -4.5 TD", &["Leading{4.5}", "MoveTextPosition{3.0, -4.5}"]),
+        ("1 2 (a\\)b) \"", &["WordSpacing{1.0}", "CharSpacing{2.0}", "TextNewline{}", "TextDraw{(a)b)}"]),
+        ("<4142> '", &["TextNewline{}", "TextDraw{(AB)}"]),
+        ("b* s F", &["Close{}", "FillAndStroke{EvenOdd}", "Close{}", "Stroke{}", "Fill{NonZero}"]),
+        ("/Sh1 sh /Perceptual ri", &["Shade{/\"Sh1\"}", "RenderingIntent{I.Perceptual}"]),
+        ("[(a) -20 (b)] TJ", &["TextDrawAdjusted{[(a) -20.0 (b)]}"]),
+        ("0.5 1 0 /P1 scn 1 0 0 SC", &["FillColor{Other, [real 0.5 int 1 int 0 /\"P1\"]}", "StrokeColor{Other, [int 1 int 0 int 0]}"]),
+        ("1 0 d0 q 1 0 0 0 1 1 d1 Q", &["Save{}", "Restore{}"]),
+        ("BX 1 2 frob EX 2 J", &["LineCap{C.Square}"]),
+        ("/T <</MCID 3>> BDC /T2 MP EMC", &["BeginMarkedContent{/\"T\", <</\"MCID\" int 3 >>}", "MarkedContentPoint{/\"T2\", -}", "EndMarkedContent{}"]),
+        ("BI /W 2 /H 1 /CS /G /BPC 8 ID ab\nEI q", &["InlineImage{2.0, 1.0, 8.0, /\"DeviceGray\", nomask, nointerpolate, (ab)}", "Save{}"]),
+    ];
+    for (text, want) in table {
+        match interpret(text.as_bytes()) {
+            Ok(it) => { let got = shown(&it.ops); if got.iter().map(|s| s.as_str()).collect::<Vec<_>>() != want.to_vec() { bad.push(format!("reference reads {:?} as {:?}, hand reading is {:?}", text, got, want)); } }
+            Err(e) => bad.push(format!("reference rejects {:?}: {}", text, e)),
+        }
+    }
+    // comparator
+    use pdf::content::{Color, Point};
+    use pdf::primitive::Primitive;
+    let a = vec![Op::MoveTo { p: Point { x: 1.0, y: -0.0 } }, Op::FillColor { color: Color::Other(vec![Primitive::Number(3.0), Primitive::Name("P".into())]) }, Op::Stroke];
+    let b = vec![Op::MoveTo { p: Point { x: 1.0, y: 0.0 } }, Op::FillColor { color: Color::Other(vec![Primitive::Integer(3), Primitive::Name("P".into())]) }, Op::Stroke];
+    if opsgen::ops_equal(&a, &b).is_err() || opsgen::ops_digest(&a) != opsgen::ops_digest(&b) { bad.push("comparator: Integer(3) vs Number(3.0) / -0 vs 0 not treated as equal".into()); }
+    let c = vec![Op::MoveTo { p: Point { x: 1.0, y: 0.5 } }, b[1].clone(), Op::Stroke];
+    if opsgen::ops_equal(&a, &c).is_ok() || opsgen::ops_digest(&a) == opsgen::ops_digest(&c) { bad.push("comparator: different operand not noticed".into()); }
+    if opsgen::ops_equal(&a, &a[..2]).is_ok() || !is_strict_subsequence(&[to_repr(&a[0]), to_repr(&a[2])], &a.iter().map(to_repr).collect::<Vec<_>>()) { bad.push("comparator: dropped operation not noticed".into()); }
+    // doctored reader: drops Shade, swaps the operands of ", leaks an operand — the Part B comparison must fire
+    let it = interpret(b"/S1 sh 1 2 (x) \" 3 4 5 sc").unwrap();
+    let mut dropped = it.ops.clone(); dropped.remove(0);
+    if !matches!(compare_b(&it.ops, &dropped), Err((_, "dropped-op", _))) { bad.push("doctored reader dropping sh not classified as dropped-op".into()); }
+    let mut swapped = it.ops.clone(); swapped.swap(1, 2); swapped[1].kind = "WordSpacing"; swapped[2].kind = "CharSpacing";
+    if !matches!(compare_b(&it.ops, &swapped), Err((1, "wrong-ops", _))) { bad.push("doctored reader swapping the operands of \" not noticed".into()); }
+    // minimiser: predicate "contains a Shade and a Leading" must come out as exactly these two kinds
+    let mut src = Src::fresh(Rng::new(77));
+    let mut seq = opsgen::gen_ops_cfg(&mut src, 30, &opsgen::GenCfg::PLAIN);
+    seq.insert(seq.len() / 2, Op::Shade { name: "Sh9".into() });
+    seq.push(Op::Leading { leading: 12.5 });
+    let pred = |o: &[Op]| o.iter().any(|x| matches!(x, Op::Shade { .. })) && o.iter().any(|x| matches!(x, Op::Leading { .. }));
+    let m = minimise_ops(&seq, pred, 3000);
+    if opsgen::label_set(&m, true) != "Leading+Shade" { bad.push(format!("minimiser: expected Leading+Shade, got {}", opsgen::label_set(&m, true))); }
+    // generator → picture → operation is the identity
+    let mut src = Src::fresh(Rng::new(78));
+    let seq = opsgen::gen_ops(&mut src, 40);
+    for o in &seq { match opsgen::from_repr(&to_repr(o)) { Some(o2) if op_eq(o, &o2) => {} _ => bad.push(format!("from_repr(to_repr(op)) != op for {}", opsgen::show_op(o))) } }
+    for b in bad { run.inconclusive(format!("C08 self-test: {}", b)); }
+    run.count("self_test_run");
+}
+
+pub fn run(run: &Run) {
+    run.rule("A: tape-generated sequences of <= 40 Ops over all 44 serialisable variants (InlineImage excluded: serialize_ops has no code for it), finite operands incl. 0, -0, tiny, 2^24..2^31, >= 2^31, random bit patterns; names over regular, irregular and non-ASCII characters; strings over all bytes; property lists / colour operands as primitives; 40% of steps are shorthand-trigger patterns (Close+Stroke, Close+FillAndStroke, T*+Tj, Tw+Tc+T*+Tj and near misses, Leading+Td with ty=-l / tx=-l, curves whose c1 is the last point / the spec current point after re,h / c2 = p). Oracle: parse_ops(serialize_ops(s), NoResolve) structurally equals s (IEEE equality, Integer(n) == Number(n as f32), dictionary order ignored). B: each of the 73 operator keywords of ISO 32000-1 Table A.1 (BI/ID/EI one unit) printed with well-formed, pairwise distinct operands; singles compared with a reference interpreter written from the specification; every ordered pair must read as parse(first) ++ parse(second) (v takes its first control point from the current point); chains of path operators check the current point after h/re/painting. distinct_nontrivial = distinct non-empty sequences (A) and distinct texts (B).");
+    run.assume("the reference interpreter harness/src/refimpl/c08_content.rs implements ISO 32000-1 operator semantics (self-tested on 16 hand-verified texts each run)");
+    run.assume("serialize_ops returning Err means the sequence is not accepted (outside the domain); a panic is counted as a violation");
+    run.assume("parse_ops is called with NoResolve, whose strict options have allow_invalid_ops = true: operator errors are swallowed, so a mis-read operator shows up as a missing or different operation, not as an error");
+    self_test(run);
+    part_b(run);
+    part_a(run);
+}
